@@ -1,5 +1,8 @@
 #!/bin/bash
-# run every claimed check (quick) on the current tree, in parallel; summary
+# run every claimed check (quick) on the current tree, 5 at a time (each check
+# already uses all cores); summary
 cd /verif
 pids=$(python3 -c "import json;print(' '.join(c['property_id'] for c in json.load(open('MANIFEST.json'))['checks']))")
-for p in $pids; do ( ./check $p > /tmp/runall_$p.log 2>&1; echo "$p exit=$? $(grep -E 'obligations,' /tmp/runall_$p.log | cut -c1-150)" ) & done; wait
+run() { p=$1; ./check $p > /tmp/runall_$p.log 2>&1; echo "$p exit=$? $(grep -E 'obligations,' /tmp/runall_$p.log | cut -c1-150)"; }
+export -f run
+echo $pids | tr ' ' '\n' | xargs -P 5 -I{} bash -c 'run {}'
